@@ -131,7 +131,7 @@ func (c *Ctx) c14Export() {
 		// gate 1: name registered, and the dumped cache is the looked-up one
 		okName := false
 		for _, ev := range p.Events {
-			if ev.Kind == pw.EvMapLookup && ev.Recv != nil && ev.Recv.Kind == pw.KField && ev.Recv.Field.Name() == "caches" && len(ev.Results) == 2 && queryGet(ev.Key, "name") {
+			if ev.Kind == pw.EvMapLookup && ev.Recv != nil && ev.Recv.Kind == pw.KField && fname(ev.Recv.Field) == "caches" && len(ev.Results) == 2 && queryGet(ev.Key, "name") {
 				if t, known := p.Truth(ev.Results[1]); known && t && dump.Recv == ev.Results[0] {
 					okName = true
 				}
@@ -212,7 +212,7 @@ func (c *Ctx) c14Import() {
 			// the query is installed into the URL before the request is built from it
 			installed := false
 			for _, ev := range g.events {
-				if ev.Kind == pw.EvFieldWrite && ev.Field != nil && ev.Field.Name() == "RawQuery" && ev.Value != nil && ev.Value.Kind == pw.KCall && ev.Value.Ev.Role == "Std:url.Values.Encode" {
+				if ev.Kind == pw.EvFieldWrite && ev.Field != nil && fname(ev.Field) == "RawQuery" && ev.Value != nil && ev.Value.Kind == pw.KCall && ev.Value.Ev.Role == "Std:url.Values.Encode" {
 					installed = true
 				}
 				if ev.Kind == pw.EvCall && ev.Role == "Std:http.NewRequest" && !installed {
@@ -229,7 +229,7 @@ func (c *Ctx) c14Import() {
 			resp := rt.Results[0]
 			var status *pw.Val
 			for _, ev := range g.events {
-				if ev.Kind == pw.EvFieldRead && ev.Field != nil && ev.Field.Name() == "StatusCode" && ev.Recv == resp {
+				if ev.Kind == pw.EvFieldRead && ev.Field != nil && fname(ev.Field) == "StatusCode" && ev.Recv == resp {
 					status = ev.Value
 				}
 			}
@@ -271,12 +271,12 @@ func (c *Ctx) c14Import() {
 				for x, i := rd, 0; x != nil && i < 4; i++ {
 					if x.Kind == pw.KAlloc {
 						for _, f := range x.Fields {
-							if f != nil && f.Kind == pw.KField && f.Field != nil && f.Field.Name() == "Body" && f.Src == resp {
+							if f != nil && f.Kind == pw.KField && f.Field != nil && fname(f.Field) == "Body" && f.Src == resp {
 								okBody = true
 							}
 						}
 					}
-					if x.Kind == pw.KField && x.Field != nil && x.Field.Name() == "Body" && x.Src == resp {
+					if x.Kind == pw.KField && x.Field != nil && fname(x.Field) == "Body" && x.Src == resp {
 						okBody = true
 					}
 					x = x.Src
